@@ -251,9 +251,16 @@ class StmtMixin:
         raise Undecided("global statement")
 
     # ---- loops
-    def loop_spec(self, fr):
-        k = fr.loop_ordinal
-        fr.loop_ordinal += 1
+    def loop_spec(self, fr, node=None):
+        """Loop ordinal = position of the loop statement in source order inside its function (static, so the
+        numbering does not depend on the path taken)."""
+        if not hasattr(fr, "loop_ids"):
+            fr.loop_ids = {}
+            if fr.fn is not None:
+                loops = [x for x in ast.walk(fr.fn) if isinstance(x, (ast.For, ast.While))]
+                loops.sort(key=lambda x: (x.lineno, x.col_offset))
+                fr.loop_ids = {id(x): i for i, x in enumerate(loops)}
+        k = fr.loop_ids.get(id(node), -1)
         c = self.contract_for(fr)
         if c is None:
             return k, None
@@ -265,7 +272,7 @@ class StmtMixin:
         return self.contracts.get(fr.qual)
 
     def st_While(self, s, st, fr):
-        k, spec = self.loop_spec(fr)
+        k, spec = self.loop_spec(fr, s)
         if spec is None:
             # bounded concrete unrolling only when the guard is decided concretely each time
             for _ in range(256):
@@ -289,7 +296,7 @@ class StmtMixin:
     def st_For(self, s, st, fr):
         it = self.ev(s.iter, st, fr)
         items = self.try_iter_concrete(it, st)
-        k, spec = self.loop_spec(fr)
+        k, spec = self.loop_spec(fr, s)
         if items is not None and (spec is None or spec.get("unroll")):
             for x in items:
                 self.assign_target(s.target, x, st, fr)
@@ -393,9 +400,7 @@ class StmtMixin:
             pre_body()
             for gs in spec.get("ghost_pre", []):
                 c.exec_ghost(self, gs, st, fr)
-            fr_saved = fr.loop_ordinal
             r = self.exec_block(s.body, st, fr)
-            fr.loop_ordinal = fr_saved
             if r[0] in (NORMAL, CONTINUE):
                 for gs in spec.get("ghost_post", []):
                     c.exec_ghost(self, gs, st, fr)
@@ -419,7 +424,6 @@ class StmtMixin:
         st.trace.append(f"L{line}:loop-exit")
         for gs in spec.get("ghost_exit", []):
             c.exec_ghost(self, gs, st, fr)
-        fr.loop_ordinal += self.count_loops(s.body)
         if getattr(s, "orelse", None):
             return self.exec_block(s.orelse, st, fr)
         return None
@@ -588,7 +592,7 @@ class StmtMixin:
             return v.havoc_copy(self, st, name)
         if isinstance(v, Opt):
             return Opt(z3.Bool(fresh_name(name + ".isnone")), self.havoc_value(v.val, name, st))
-        if isinstance(v, (Seq, Obj, list, dict)):
+        if isinstance(v, (Seq, Obj, list, dict)) or hasattr(v, "havoc"):
             self.havoc_inplace(v, name, st)
             return v
         if v is None or isinstance(v, (str, Opaque, ModRef, FuncRef, tuple, Fn, BoundMethod)):
